@@ -31,11 +31,21 @@ class PackageSpace:
         # holds an unreadable (not UTF-8) copy of its files or nothing: the
         # component must still be found in the package's real directory
         self.split_every = 0
+        self.odd_every = 0
         self._written = 0
 
     def new_name(self, hint="p"):
         _serial[0] += 1
         n = "zcvpkg_%s_%d_%s" % (self.tag, _serial[0], hint)
+        if self.odd_every and _serial[0] % self.odd_every == 0:
+            # directory names that no import statement could spell but
+            # that import fine by name: a hyphen, a leading digit
+            n = ("zcvpkg-%s-%d-%s" if _serial[0] % (2 * self.odd_every)
+                 else "%s9zcvpkg_%d_%s") % (
+                     self.tag if _serial[0] % (2 * self.odd_every)
+                     else "7", _serial[0], hint)
+            if n[0] == "7":
+                n = "7" + self.tag + n[1:]
         self.names.append(n)
         return n
 
